@@ -23,8 +23,25 @@
     and writes exactly the bytes of the pure encoder model (whose layout theorems are C06/C07/C16/C11/DYNBT's).
 
   To add a decoder `d` whose owning property proves `fragInv_d` / `extStable_d`: one `theorem C09_frag_d := fragInv_d`
-  and one `C09_reader_fault_d` through `C09_reader_fault` below (the NBT decoders for typed / `any` / RawMessage
-  targets, `Model/NBTDecode.lean`, are to be added this way).
+  and one `C09_reader_fault_d` through `C09_reader_fault` below.
+
+  PART 2 (the blocks "Part 2 — …"): the decoders whose models did not exist when the property was assembled —
+  * `nbt.Decoder.Decode` into a nil `any`, `map[string]any`, `struct{}` (skipping / refusing unknown fields),
+    `RawMessage`, struct types through a field table (C01/C03: Model/NBTDecode) and into a fresh variable of ANY type of
+    the typed universe (C02/C03: Model/NBTTyped), `NBTField.ReadFrom` (Model/NBTField);
+  * `PaletteContainer.ReadFrom` (C12), `Section` / `Chunk` / `BlockEntity` / `lightData.ReadFrom` (C13: Model/ChunkWire);
+  * writers: `PaletteContainer.WriteTo` and `Section.WriteTo` (new `Wr` models, Model/WritersLevel).
+  Reader-fault statements for the nbt entry points: for every well-formed document and every strict prefix of it
+  (`C09_reader_fault_nbt_any/map/skip/disallow/raw`, from C03's prefix theorems); for the typed decoder, the struct
+  tables, the chunk and the block entity the generic form at a FIXED nbt fuel (`…_nbt_ty`, `…_nbt_typed`, `…_chunk`,
+  `…_blockentity`): the entry points take their fuel from the length of the source, and that a shorter source (less
+  fuel) cannot succeed where the longer one ran out of fuel is C03's open item (fuel independence on arbitrary input).
+  * writers: `nbt.Encoder.Encode` over the whole typed universe (new `Wr` model Model/WritersNBT: the write sequence of
+    nbt/encode.go; `C09_writer_faithful_nbt` for EVERY value, encodable or not; `C09_writer_bytes_nbt`: it writes the
+    bytes of C02's pure model `encode`).
+  * writers: `NBTField.WriteTo`, `BlockEntity.WriteTo`, `lightData.WriteTo`, `Chunk.WriteTo` (Model/WritersChunk: the height
+    maps go through `wEncode` on the anonymous struct of chunk.go behind a counting writer): `C09_writer_faithful_chunk`
+    for every chunk, `C09_writer_bytes_chunk`: it writes the bytes of C13's pure model `Chunk.writeTo`.
 -/
 import GoMC.Lemmas.C09
 import GoMC.Lemmas.Writers
@@ -34,8 +51,16 @@ import GoMC.Props.C07
 import GoMC.Props.C11
 import GoMC.Props.C16
 import GoMC.Props.DYNBT
+import GoMC.Props.C02
+import GoMC.Props.C03
+import GoMC.Props.C12
+import GoMC.Props.C13
+import GoMC.Lemmas.WritersLevel
+import GoMC.Lemmas.WritersNBT
+import GoMC.Lemmas.WritersChunk
 namespace GoMC.Props.C09
 open GoMC GoMC.Model GoMC.Spec GoMC.Lemmas
+open GoMC.Lemmas.NBTDecode (S15 isNet)
 
 /-! ## The property's sentence, once, for every fragmentation-invariant decoder -/
 
@@ -330,6 +355,229 @@ theorem C09_writer_fault_dynbt (v : DynBT.Val) (out : Bytes) (h : DynBT.marshal 
 theorem C09_writer_bytes_dynbt (v : DynBT.Val) (out : Bytes) (h : DynBT.marshal v = Res.ok out) :
     Wr.run (DynBT.wMarshal v) = (Res.ok (), out) := (exact_wMarshal v out h).run
 
+/-! ## Part 2 — readers: the nbt decoder into dynamic, typed, raw targets; NBTField -/
+
+theorem C09_frag_nbt_any (net : Bool) : Rd.FragInv (NBT.decodeAny net) := C03.C03_fragInv_any net
+theorem C09_frag_nbt_ty (net d : Bool) (ty : NBT.Ty) : Rd.FragInv (NBT.decodeTy net d ty) := C03.C03_fragInv_ty net d ty
+theorem C09_frag_nbt_map (net : Bool) : Rd.FragInv (NBT.decodeMap net) := C03.C03_fragInv_ty net false .mapAny
+theorem C09_frag_nbt_skip (net : Bool) : Rd.FragInv (NBT.decodeSkip net) := C03.C03_fragInv_ty net false (.struct [])
+theorem C09_frag_nbt_disallow (net : Bool) : Rd.FragInv (NBT.decodeDisallow net) := C03.C03_fragInv_ty net true (.struct [])
+theorem C09_frag_nbt_raw (net : Bool) : Rd.FragInv (NBT.decodeRaw net) := C03.C03_fragInv_ty net false .raw
+
+theorem C09_frag_nbt_typed (cx : Go.SnbtCarrier) (hsn : ∀ tag, Rd.FragInv (cx.unmarshal tag)) (net disallow : Bool)
+    (ty : Go.GoType) : Rd.FragInv (Go.decodeTyped cx net disallow ty) := C03.C03_fragInv_typed cx hsn net disallow ty
+
+theorem C09_frag_nbt_typed_snbt (fm : SNBT.FmtOracle) (tagType : Bytes → Byte) (marshal : Bytes → Res Bytes)
+    (net disallow : Bool) (ty : Go.GoType) :
+    Rd.FragInv (Go.decodeTyped { tagType, marshal, unmarshal := SNBT.unmarshalNBT fm } net disallow ty) :=
+  C03.C03_fragInv_typed _ (fun tag => SNBT.fragInv_unmarshalNBT fm tag) net disallow ty
+
+theorem C09_frag_nbtfield (cx : Go.SnbtCarrier) (hsn : ∀ tag, Rd.FragInv (cx.unmarshal tag)) (allow : Bool)
+    (ty : Go.GoType) (old : Go.GoVal) : Rd.FragInv (Go.fieldRead cx allow ty old) :=
+  C02.C02_field_read_fragInv cx (fun tag => DYNBT.DYNBT_frag tag) hsn allow ty old
+
+theorem C09_reader_fault_nbt_any (fmt : Format) (name : Bytes) (t : NBT) (hname : name.length < 32768) (hwf : t.WF)
+    (hs15 : S15 t) (pre more : Bytes) (hdoc : encDoc fmt name t = pre ++ more) (hmore : more ≠ [])
+    (u : Stream) (hu : u.flat = pre) : (NBT.decodeAny (isNet fmt) u).1 = Res.err :=
+  Res.eq_err_of (C03.C03_prefix_any fmt name t hname hwf hs15 pre more hdoc hmore u hu) (C03.C03_total_any _ u)
+
+theorem C09_reader_fault_nbt_map (fmt : Format) (name : Bytes) (kvs : List (Bytes × NBT)) (hname : name.length < 32768)
+    (hwf : (NBT.compound kvs).WF) (hs15 : S15 (.compound kvs)) (pre more : Bytes)
+    (hdoc : encDoc fmt name (.compound kvs) = pre ++ more) (hmore : more ≠ [])
+    (u : Stream) (hu : u.flat = pre) : (NBT.decodeMap (isNet fmt) u).1 = Res.err :=
+  Res.eq_err_of (C03.C03_prefix_map fmt name kvs hname hwf hs15 pre more hdoc hmore u hu) (C03.C03_total_map _ u)
+
+theorem C09_reader_fault_nbt_skip (fmt : Format) (name : Bytes) (kvs : List (Bytes × NBT)) (hname : name.length < 32768)
+    (hwf : (NBT.compound kvs).WF) (hs15 : S15 (.compound kvs)) (pre more : Bytes)
+    (hdoc : encDoc fmt name (.compound kvs) = pre ++ more) (hmore : more ≠ [])
+    (u : Stream) (hu : u.flat = pre) : (NBT.decodeSkip (isNet fmt) u).1 = Res.err :=
+  Res.eq_err_of (C03.C03_prefix_skip fmt name kvs hname hwf hs15 pre more hdoc hmore u hu) (C03.C03_total_skip _ u)
+
+theorem C09_reader_fault_nbt_disallow (fmt : Format) (name : Bytes) (hname : name.length < 32768) (pre more : Bytes)
+    (hdoc : encDoc fmt name (.compound []) = pre ++ more) (hmore : more ≠ [])
+    (u : Stream) (hu : u.flat = pre) : (NBT.decodeDisallow (isNet fmt) u).1 = Res.err :=
+  Res.eq_err_of (C03.C03_prefix_disallow fmt name hname pre more hdoc hmore u hu) (C03.C03_total_disallow _ u)
+
+theorem C09_reader_fault_nbt_raw (fmt : Format) (name : Bytes) (t : NBT) (hname : name.length < 32768) (hwf : t.WF)
+    (hs15 : S15 t) (pre more : Bytes) (hdoc : encDoc fmt name t = pre ++ more) (hmore : more ≠ [])
+    (u : Stream) (hu : u.flat = pre) : (NBT.decodeRaw (isNet fmt) u).1 = Res.err :=
+  Res.eq_err_of (C03.C03_prefix_raw fmt name t hname hwf hs15 pre more hdoc hmore u hu) (C03.C03_total_raw _ u)
+
+theorem C09_reader_fault_nbt_ty (fuel : Nat) (net d : Bool) (ty : NBT.Ty) (s s' : Stream) (a : NBT.Val × Bytes)
+    (pre more rest : Bytes) (hs : s.flat = pre ++ more ++ rest)
+    (hrun : NBT.decodeTyF fuel net d ty s = (Res.ok a, s')) (hres : s'.flat = rest) (hmore : more ≠ [])
+    (t : Stream) (ht : t.flat = pre) : ∀ b, (NBT.decodeTyF fuel net d ty t).1 ≠ Res.ok b :=
+  C09_reader_fault _ (C03.C03_extStable_ty fuel net d ty) s s' a pre more rest hs hrun hres hmore t ht
+
+theorem C09_reader_fault_nbt_typed (cx : Go.SnbtCarrier) (hsn : ∀ tag, Rd.ExtStable (cx.unmarshal tag)) (fuel : Nat)
+    (net disallow : Bool) (ty : Go.GoType) (s s' : Stream) (a : Go.GoVal × Bytes)
+    (pre more rest : Bytes) (hs : s.flat = pre ++ more ++ rest)
+    (hrun : Go.decodeTypedF cx fuel net disallow ty s = (Res.ok a, s')) (hres : s'.flat = rest) (hmore : more ≠ [])
+    (t : Stream) (ht : t.flat = pre) : ∀ b, (Go.decodeTypedF cx fuel net disallow ty t).1 ≠ Res.ok b :=
+  C09_reader_fault _ (C03.C03_extStable_typed cx hsn fuel net disallow ty) s s' a pre more rest hs hrun hres hmore t ht
+
+/-! ## Part 2 — readers: paletted container, section, chunk, block entity, light block -/
+
+theorem C09_frag_palette (d : Container) : Rd.FragInv (Palette.readRd d) := C12.C12_readFrom_fragInv d
+
+open GoMC.Model.Chunk GoMC.Lemmas.ChunkWire in
+theorem C09_frag_section (gbS gbB : Int) (sec : WSec) (h : SecSane sec.core) : Rd.FragInv (Section.readFrom gbS gbB sec) :=
+  (C13.C13_section_readFrom_good gbS gbB sec h).2.1
+
+open GoMC.Model.Chunk GoMC.Lemmas.ChunkWire in
+theorem C09_frag_chunk (gbS gbB : Int) (d : Chunk) (hd : ChunkSane d) : Rd.FragInv (Chunk.readFrom gbS gbB d) :=
+  C13.C13_readFrom_fragInv gbS gbB d hd
+
+open GoMC.Model.Chunk in
+theorem C09_frag_blockentity (e : EntRep) : Rd.FragInv (BlockEntity.readFrom e) := (C13.C13_entity_readFrom_good e).2.1
+
+open GoMC.Model.Chunk in
+theorem C09_frag_light (l : LightData) : Rd.FragInv (lightC.dec l) := (C13.C13_light_readFrom_good l).2.1
+
+theorem C09_reader_fault_palette (d : Container) (hg0 : 0 ≤ d.cfg.gbits) (hg64 : d.cfg.gbits ≤ 64)
+    (s s' : Stream) (a : Nat × Container) (pre more rest : Bytes)
+    (hs : s.flat = pre ++ more ++ rest) (hrun : Palette.readRd d s = (Res.ok a, s')) (hres : s'.flat = rest) (hmore : more ≠ [])
+    (t : Stream) (ht : t.flat = pre) : (d.readFrom t).1 = Res.err := by
+  have hnot := C09_reader_fault _ (C12.C12_readFrom_extStable d) s s' a pre more rest hs hrun hres hmore t ht
+  have hnp := C12.C12_readFrom_total d hg0 hg64 t
+  cases hr : (d.readFrom t).1 with
+  | ok n =>
+    exfalso
+    apply hnot (n, (d.readFrom t).2.1)
+    simp [Palette.readRd, hr, Res.map]
+  | err => rfl
+  | panic => exact absurd hr hnp
+
+open GoMC.Lemmas.Palette (Inv GbOK) in
+/-- every strict prefix of what `WriteTo` emits for a well-formed container, read into any container of the same
+configuration and length: an error -/
+theorem C09_reader_fault_palette_wire {cfg : PalCfg} {gb n : Nat} {c d : Container} (hgb : GbOK cfg gb) (hinv : Inv cfg gb n c)
+    (hn : n < 2 ^ 31) (hdcfg : d.cfg = cfg) (hdlen : d.data.length = (n : Int)) (hg0 : 0 ≤ cfg.gbits) (hg64 : cfg.gbits ≤ 64)
+    (pre more : Bytes) (hsplit : c.writeTo = pre ++ more) (hmore : more ≠ []) (t : Stream) (ht : t.flat = pre) :
+    (d.readFrom t).1 = Res.err := by
+  obtain ⟨d', s', h1, h2, _⟩ := C12.C12_wire_roundtrip hgb hinv hn hdcfg hdlen [] (Stream.ofBytes c.writeTo) (by simp)
+  have hrun : Palette.readRd d (Stream.ofBytes c.writeTo) = (Res.ok (c.writeTo.length, d'), s') := by
+    simp [Palette.readRd, h1, Res.map]
+  exact C09_reader_fault_palette d (by rw [hdcfg]; exact hg0) (by rw [hdcfg]; exact hg64) _ s' _ pre more []
+    (by simp [hsplit]) hrun h2 hmore t ht
+
+open GoMC.Model.Chunk GoMC.Lemmas.ChunkWire in
+theorem C09_reader_fault_section (gbS gbB : Int) (sec : WSec) (h : SecSane sec.core) (s s' : Stream) (a : WSec × Nat)
+    (pre more rest : Bytes) (hs : s.flat = pre ++ more ++ rest)
+    (hrun : Section.readFrom gbS gbB sec s = (Res.ok a, s')) (hres : s'.flat = rest) (hmore : more ≠ [])
+    (t : Stream) (ht : t.flat = pre) : (Section.readFrom gbS gbB sec t).1 = Res.err :=
+  let g := C13.C13_section_readFrom_good gbS gbB sec h
+  Res.eq_err_of (C09_reader_fault _ g.2.2 s s' a pre more rest hs hrun hres hmore t ht) (g.1 t)
+
+open GoMC.Model.Chunk GoMC.Lemmas.ChunkWire in
+theorem C09_reader_fault_chunk (gbS gbB : Int) (fuel : Nat) (d : Chunk) (hd : ChunkSane d) (s s' : Stream) (a : Chunk × Nat)
+    (pre more rest : Bytes) (hs : s.flat = pre ++ more ++ rest)
+    (hrun : Chunk.readFromF gbS gbB fuel d s = (Res.ok a, s')) (hres : s'.flat = rest) (hmore : more ≠ [])
+    (t : Stream) (ht : t.flat = pre) : (Chunk.readFromF gbS gbB fuel d t).1 = Res.err :=
+  Res.eq_err_of (C09_reader_fault _ (C13.C13_readFrom_extStable gbS gbB fuel d hd) s s' a pre more rest hs hrun hres hmore t ht)
+    (C13.C13_readFrom_total_fuel gbS gbB fuel d hd t)
+
+open GoMC.Model.Chunk in
+theorem C09_reader_fault_blockentity (fuel : Nat) (e : EntRep) (s s' : Stream) (a : EntRep × Nat)
+    (pre more rest : Bytes) (hs : s.flat = pre ++ more ++ rest)
+    (hrun : (entC fuel).dec e s = (Res.ok a, s')) (hres : s'.flat = rest) (hmore : more ≠ [])
+    (t : Stream) (ht : t.flat = pre) : ∀ b, ((entC fuel).dec e t).1 ≠ Res.ok b :=
+  C09_reader_fault _ ((C13.C13_entity_readFrom_good e).2.2 fuel) s s' a pre more rest hs hrun hres hmore t ht
+
+/-! ## Part 2 — writers: paletted container, section -/
+
+theorem C09_writer_fault_palette (c : Container) (k : Nat) (hk : k < c.writeTo.length) :
+    (wContainer c ⟨[], some k⟩).1 = Res.err := (exact_wContainer c).fault k hk
+theorem C09_writer_bytes_palette (c : Container) : Wr.run (wContainer c) = (Res.ok c.writeTo.length, c.writeTo) :=
+  (exact_wContainer c).run
+theorem C09_writer_faithful_palette (c : Container) : Wr.Faithful (wContainer c) := (exact_wContainer c).faithful
+
+open GoMC.Model.Chunk in
+theorem C09_writer_fault_section (bc mc : PalCfg) (s : SecCore) (k : Nat) (hk : k < ((secC bc mc).enc s).1.length) :
+    (wSection s ⟨[], some k⟩).1 = Res.err := (exact_wSection bc mc s).fault k hk
+open GoMC.Model.Chunk in
+theorem C09_writer_bytes_section (bc mc : PalCfg) (s : SecCore) :
+    Wr.run (wSection s) = (Res.ok ((secC bc mc).enc s).1.length, ((secC bc mc).enc s).1) := (exact_wSection bc mc s).run
+
+
+/-! ## Part 2 — writers: `nbt.Encoder.Encode` (every type of the typed universe) -/
+
+/-- `Encode(v, name)` never swallows a sink failure — for EVERY value (also those whose encoding fails half-way: a list
+with elements of different tags, a string over 32767 bytes in the middle of a compound, …), both formats, any name -/
+theorem C09_writer_faithful_nbt (cx : Go.SnbtCarrier) (network : Bool) (name : Bytes) (v : Option Go.GoVal) :
+    Wr.Faithful (Go.wEncode cx network name v) := WNBT.faithful_wEncode cx network name v
+
+/-- whatever `Encode` does on an unlimited sink (result `r`, bytes `bs`): under a sink that accepts fewer than `|bs|`
+bytes the result is an error -/
+theorem C09_writer_fault_nbt_any (cx : Go.SnbtCarrier) (network : Bool) (name : Bytes) (v : Option Go.GoVal)
+    (r : Res Unit) (bs : Bytes) (hrun : Go.wEncode cx network name v ⟨[], none⟩ = (r, ⟨bs, none⟩)) (k : Nat) (hk : k < bs.length) :
+    (Go.wEncode cx network name v ⟨[], some k⟩).1 = Res.err :=
+  Wr.fault_is_error (C09_writer_faithful_nbt cx network name v) r bs hrun k hk
+
+/-- when C02's pure model encodes the value to `out`: the writer model writes exactly `out` (so C01/C02's layout and
+round-trip theorems speak about these bytes) … -/
+theorem C09_writer_bytes_nbt (cx : Go.SnbtCarrier) (network : Bool) (name : Bytes) (v : Option Go.GoVal) (out : Bytes)
+    (h : Go.encode cx network name v = Res.ok out) : Wr.run (Go.wEncode cx network name v) = (Res.ok (), out) :=
+  (WNBT.exact_wEncode cx network name v out h).run
+
+/-- … and under any budget below `|out|` the result is an error -/
+theorem C09_writer_fault_nbt (cx : Go.SnbtCarrier) (network : Bool) (name : Bytes) (v : Option Go.GoVal) (out : Bytes)
+    (h : Go.encode cx network name v = Res.ok out) (k : Nat) (hk : k < out.length) :
+    (Go.wEncode cx network name v ⟨[], some k⟩).1 = Res.err := (WNBT.exact_wEncode cx network name v out h).fault k hk
+
+
+/-! ## Part 2 — writers: `NBTField.WriteTo`, `BlockEntity.WriteTo`, `lightData.WriteTo`, `Chunk.WriteTo` -/
+
+open GoMC.Model.Chunk in
+/-- `pk.NBTField{V: v}.WriteTo` (a nil `V`: the single byte TagEnd; otherwise `Encode` behind a counting writer) -/
+theorem C09_writer_faithful_nbtfield (cx : Go.SnbtCarrier) (v : Option Go.GoVal) : Wr.Faithful (wNBTField cx v) :=
+  WChunk.faithful_wNBTField cx v
+
+open GoMC.Model.Chunk in
+theorem C09_writer_faithful_blockentity (cx : Go.SnbtCarrier) (e : EntRep) : Wr.Faithful (wEnt cx e) :=
+  WChunk.faithful_wEnt cx e
+
+open GoMC.Model.Chunk in
+/-- … and it writes the bytes of C13's block-entity codec -/
+theorem C09_writer_bytes_blockentity (cx : Go.SnbtCarrier) (fuel : Nat) (e : EntRep) :
+    Wr.run (wEnt cx e) = (Res.ok ((entC fuel).enc e).2, ((entC fuel).enc e).1) := (WChunk.exact_wEnt cx fuel e).run
+
+open GoMC.Model.Chunk in
+theorem C09_writer_faithful_light (l : LightData) : Wr.Faithful (wLight l) := WChunk.faithful_wLight l
+
+open GoMC.Model.Chunk in
+theorem C09_writer_bytes_light (l : LightData) : Wr.run (wLight l) = (Res.ok (lightC.enc l).2, (lightC.enc l).1) :=
+  (WChunk.exact_wLight l).run
+
+open GoMC.Model.Chunk in
+/-- `Chunk.WriteTo` never swallows a sink failure — for EVERY chunk (any sections, height maps, block entities, light) -/
+theorem C09_writer_faithful_chunk (cx : Go.SnbtCarrier) (gbS gbB : Int) (c : Chunk) : Wr.Faithful (wChunk cx gbS gbB c) :=
+  WChunk.faithful_wChunk cx gbS gbB c
+
+open GoMC.Model.Chunk in
+/-- whatever `Chunk.WriteTo` does on an unlimited sink (result `r`, bytes `bs`): under a sink that accepts fewer than
+`|bs|` bytes the result is an error -/
+theorem C09_writer_fault_chunk_any (cx : Go.SnbtCarrier) (gbS gbB : Int) (c : Chunk) (r : Res Nat) (bs : Bytes)
+    (hrun : wChunk cx gbS gbB c ⟨[], none⟩ = (r, ⟨bs, none⟩)) (k : Nat) (hk : k < bs.length) :
+    (wChunk cx gbS gbB c ⟨[], some k⟩).1 = Res.err :=
+  Wr.fault_is_error (C09_writer_faithful_chunk cx gbS gbB c) r bs hrun k hk
+
+open GoMC.Model.Chunk in
+/-- `Chunk.WriteTo` writes exactly the bytes of C13's pure model `Chunk.writeTo` (whose round trip through `ReadFrom` is
+`C13_wire_roundtrip`) and returns their number — the height maps included: `nbt.Encoder` on the anonymous struct of
+chunk.go emits the compound of the two long arrays (height maps shorter than 2^31 longs: they hold 256 heights) -/
+theorem C09_writer_bytes_chunk (cx : Go.SnbtCarrier) (gbS gbB : Int) (c : Chunk)
+    (h1 : c.hm.motionBlocking.data.length < 2 ^ 31) (h2 : c.hm.worldSurface.data.length < 2 ^ 31) :
+    Wr.run (wChunk cx gbS gbB c) = (Res.ok (c.writeTo gbS gbB).2, (c.writeTo gbS gbB).1) :=
+  (WChunk.exact_wChunk cx gbS gbB c h1 h2).run
+
+open GoMC.Model.Chunk in
+/-- … and under every budget below that many bytes the result is an error -/
+theorem C09_writer_fault_chunk (cx : Go.SnbtCarrier) (gbS gbB : Int) (c : Chunk)
+    (h1 : c.hm.motionBlocking.data.length < 2 ^ 31) (h2 : c.hm.worldSurface.data.length < 2 ^ 31)
+    (k : Nat) (hk : k < (c.writeTo gbS gbB).1.length) : (wChunk cx gbS gbB c ⟨[], some k⟩).1 = Res.err :=
+  (WChunk.exact_wChunk cx gbS gbB c h1 h2).fault k hk
+
 /-! ## Non-vacuity -/
 
 /-- a delivery in three chunks and the contiguous one: the hypotheses of `C09_frag_result` are met -/
@@ -346,6 +594,14 @@ example : (wString [] ⟨[], some 0⟩).1 = Res.err :=
 example : ∃ s', SNBT.unmarshalNBT ⟨fun _ => [], fun _ => []⟩ 3 (Stream.ofBytes [0, 0, 0, 5, 9]) = (Res.ok [53], s') ∧
     s'.flat = [9] :=
   ⟨Stream.ofBytes [9], by decide, by decide⟩
+/-- part 2: a root TAG_Byte_Array of three bytes cut inside its payload (the shape of the `io.ReadAll(io.LimitReader)`
+defect): the hypotheses of `C09_reader_fault_nbt_any` are met, the result is an error -/
+example : (NBT.decodeAny true (Stream.ofBytes [7, 0, 0, 0, 3, 1, 2])).1 = Res.err :=
+  C09_reader_fault_nbt_any .network [] (.byteArray [1, 2, 3]) (by decide) (by simp [NBT.WF]) (by simp [S15])
+    [7, 0, 0, 0, 3, 1, 2] [3] (by decide) (by simp) _ (by simp)
+/-- part 2: a single-valued biome container written under budget 2 of its 3 bytes -/
+example : (wContainer (Container.new ⟨.biomes, 6⟩ 64 5) ⟨[], some 2⟩).1 = Res.err :=
+  C09_writer_fault_palette _ 2 (by decide +kernel)
 example : Ty.regular (.pair .string (.pair (.ary .short (.option .long)) .unit)) = true := rfl
 
 end GoMC.Props.C09
